@@ -79,6 +79,27 @@ Definition held_obs_ok (i : nat) (n : name) (o : list (name * option nat * optio
     option_eqb Nat.eqb (snd (fst x)) (Some i) &&
     match snd x with Some rs => mem N.eqb n rs | None => true end) o.
 
+(* ---- 2'. one Extension object over time (seeded round 4): definitions are added and, in between, the object is
+   serialised (`SSer`) or serialised and replaced by the loaded copy (`SLoad`); `sstep` of model/ExtDefs.v as plain
+   data.  "Serializing an extension ..." speaks of the extension AS IT IS when it is serialised: whatever was
+   written before, the document written at a point is the document of the definitions added up to that point --
+   the one a fresh extension given the same additions in one go (`one_shot`) would write.  Everything the property
+   says about a document (preservation, same document again, owners) then holds of every document of a session. *)
+Section SpecSession.
+  Context {T V M D : Type}.
+  (* the history (additions so far, in order) at each point where a document is written *)
+  Fixpoint points (acc : list (cmd T V M)) (p : list (sstep T V M)) : list (list (cmd T V M)) :=
+    match p with
+    | [] => []
+    | SAdd c :: r => points (acc ++ [c]) r
+    | SSer :: r | SLoad :: r => acc :: points acc r
+    end.
+  Definition adds (p : list (sstep T V M)) : list (cmd T V M) :=
+    flat_map (fun s => match s with SAdd c => [c] | _ => [] end) p.
+  Definition session_transparent (one_shot : list (cmd T V M) -> D) (p : list (sstep T V M)) (outs : list D) : Prop :=
+    outs = map one_shot (points [] p).
+End SpecSession.
+
 (* ---- 3. boolean equality of documents, for payload types with a decidable equality ---- *)
 Definition opt_name_eqb := option_eqb N.eqb.
 Definition version_eqb (a b : version) : bool :=
@@ -179,9 +200,28 @@ Record helper := { h_label : list N;          (* Python expression, for reports 
                    h_exts : list name }.      (* HConst: extension names the payload reports *)
 
 Definition bound_le (a b : bound) : bool := match a, b with Any, Copyable => false | _, _ => true end.
+(* a variable declared with parameter q may stand where parameter p is expected when p admits everything q admits
+   (a copyable-type variable for an any-type parameter, a nat variable below 8 for an unbounded nat parameter);
+   the KIND must be the same: a type / string / list variable never fits a nat parameter (seeded round 4, C10-h) *)
+Fixpoint param_le (q p : sparam) {struct q} : bool :=
+  match q, p with
+  | SPType b, SPType pb => bound_le b pb
+  | SPNat _, SPNat None => true
+  | SPNat (Some a), SPNat (Some b) => N.leb a b
+  | SPString, SPString | SPExts, SPExts => true
+  | SPList x, SPList y => param_le x y
+  | SPTuple xs, SPTuple ys =>
+      (fix go (l1 l2 : list sparam) {struct l1} : bool :=
+         match l1, l2 with
+         | [], [] => true
+         | x :: r, y :: s => param_le x y && go r s
+         | _, _ => false
+         end) xs ys
+  | _, _ => false
+  end.
 Fixpoint arg_matches (p : sparam) (a : argkind) {struct a} : bool :=
   match a with
-  | KVar q => sparam_eqb p q
+  | KVar q => param_le q p
   | KType b => match p with SPType pb => bound_le b pb | _ => false end
   | KNat n => match p with SPNat None => true | SPNat (Some ub) => N.ltb n ub | _ => false end
   | KString => match p with SPString => true | _ => false end
